@@ -127,7 +127,7 @@ func H_C06_acceptor() {
 	if dmg != dmgNone {
 		zz.Assert(!f.s.IsLogged(), "C06: a damaged Logon logged the session on")
 		zz.Assert(zz.And(len(out) == 1, isType(out[0], "3")), "C06: a damaged Logon is not answered by exactly one Reject")
-		zz.Assert(rejectOK(out[0], seqVal, dmg != dmgSeqAlpha && dmg != dmgSeqMissing && dmg != dmgSeqEmpty), "C06: the Reject does not reference the Logon's sequence number")
+		zz.Assert(rejectOK(out[0], seqVal, dmg != dmgSeqAlpha && dmg != dmgSeqMissing && dmg != dmgSeqEmpty && dmg != dmgSeqHuge), "C06: the Reject does not reference the Logon's sequence number")
 		zz.Assert(zz.Spawned() == spawned, "C06: a damaged Logon started timers")
 		return
 	}
